@@ -352,3 +352,187 @@ func FixKinds(d *gen.JV) {
 		FixKinds(a)
 	}
 }
+
+// ---- type-graph aware simplification -----------------------------------------------------
+
+func renameIn(s, from, to string) string {
+	var b strings.Builder
+	for i := 0; i < len(s); {
+		if strings.HasPrefix(s[i:], from) {
+			j := i + len(from)
+			if j == len(s) || !(s[j] >= 'a' && s[j] <= 'z' || s[j] >= 'A' && s[j] <= 'Z' || s[j] >= '0' && s[j] <= '9' || s[j] == '_' || s[j] == '-') {
+				b.WriteString(to)
+				i = j
+				continue
+			}
+		}
+		b.WriteByte(s[i])
+		i++
+	}
+	return b.String()
+}
+
+// Redirect replaces references to type `from` by `to` everywhere in the node.
+func Redirect(n *gen.Node, from, to string) (*gen.Node, bool) {
+	c := n.Clone()
+	changed := false
+	c.Walk(func(x *gen.Node) {
+		if x.Kind == gen.KRef {
+			if nl := renameIn(x.Lit, from, to); nl != x.Lit {
+				x.Lit = nl
+				changed = true
+			}
+		}
+		for i := range x.Rules {
+			if nv := renameIn(x.Rules[i].Val, from, to); nv != x.Rules[i].Val {
+				x.Rules[i].Val = nv
+				changed = true
+			}
+			for j := range x.Rules[i].Items {
+				if nv := renameIn(x.Rules[i].Items[j].Lit, from, to); nv != x.Rules[i].Items[j].Lit {
+					x.Rules[i].Items[j].Lit = nv
+					changed = true
+				}
+			}
+		}
+		for i := range x.Props {
+			if x.Props[i].Shortcut {
+				if nk := renameIn(x.Props[i].Key, from, to); nk != x.Props[i].Key {
+					x.Props[i].Key = nk
+					changed = true
+				}
+			}
+		}
+	})
+	return c, changed
+}
+
+func refsOf(n *gen.Node) map[string]bool {
+	out := map[string]bool{}
+	text := gen.Render(n, gen.Canonical).Text
+	for i := 0; i < len(text); i++ {
+		if text[i] == '@' {
+			j := i + 1
+			for j < len(text) && (text[j] >= 'a' && text[j] <= 'z' || text[j] >= 'A' && text[j] <= 'Z' || text[j] >= '0' && text[j] <= '9' || text[j] == '_' || text[j] == '-') {
+				j++
+			}
+			out[text[i:j]] = true
+			i = j
+		}
+	}
+	return out
+}
+
+// GraphCands: Cands plus simplifications of the type environment as a graph.
+func GraphCands(c Case) []Case {
+	out := Cands(c)
+	// root := @T
+	for _, t := range c.Types {
+		if t.Body == nil {
+			continue
+		}
+		if !(c.Root.Kind == gen.KRef && c.Root.Lit == t.Name && len(c.Root.Rules) == 0) {
+			n := c.Clone()
+			n.Root = gen.Ref(t.Name)
+			out = append(out, n)
+		}
+	}
+	// replace a body by a scalar
+	for i, t := range c.Types {
+		if t.Body != nil && (t.Body.Kind != gen.KInt || len(t.Body.Rules) > 0) {
+			n := c.Clone()
+			n.Types[i].Body = gen.Int("1")
+			out = append(out, n)
+		}
+	}
+	// redirect references to another type
+	for i, t := range c.Types {
+		if t.Body == nil {
+			continue
+		}
+		for _, a := range c.Types {
+			for _, b := range c.Types {
+				if a.Name == b.Name || a.Body == nil || b.Body == nil {
+					continue
+				}
+				if nb, ch := Redirect(t.Body, a.Name, b.Name); ch {
+					n := c.Clone()
+					n.Types[i].Body = nb
+					out = append(out, n)
+				}
+			}
+		}
+	}
+	for _, a := range c.Types {
+		for _, b := range c.Types {
+			if a.Name == b.Name || a.Body == nil || b.Body == nil {
+				continue
+			}
+			if nr, ch := Redirect(c.Root, a.Name, b.Name); ch {
+				n := c.Clone()
+				n.Root = nr
+				out = append(out, n)
+			}
+		}
+	}
+	return out
+}
+
+// Canonical drops unreferenced types and renames the others in order of first
+// reference from the root (@n0, @n1, ...).
+func Canonical(c Case) Case {
+	byName := map[string]*TypeDecl{}
+	for i := range c.Types {
+		byName[c.Types[i].Name] = &c.Types[i]
+	}
+	var order []string
+	seen := map[string]bool{}
+	var visit func(n *gen.Node)
+	visit = func(n *gen.Node) {
+		text := gen.Render(n, gen.Canonical).Text
+		for i := 0; i < len(text); i++ {
+			if text[i] != '@' {
+				continue
+			}
+			j := i + 1
+			for j < len(text) && (text[j] >= 'a' && text[j] <= 'z' || text[j] >= 'A' && text[j] <= 'Z' || text[j] >= '0' && text[j] <= '9' || text[j] == '_' || text[j] == '-') {
+				j++
+			}
+			name := text[i:j]
+			i = j
+			if seen[name] {
+				continue
+			}
+			seen[name] = true
+			order = append(order, name)
+			if t, ok := byName[name]; ok && t.Body != nil {
+				visit(t.Body)
+			}
+		}
+	}
+	visit(c.Root)
+	out := Case{Root: c.Root, Opt: c.Opt, Mesh: c.Mesh, Doc: c.Doc}
+	ren := func(n *gen.Node) *gen.Node {
+		x := n
+		for i, o := range order {
+			x, _ = Redirect(x, o, fmt.Sprintf("@zzq%d", i))
+		}
+		for i := range order {
+			x, _ = Redirect(x, fmt.Sprintf("@zzq%d", i), fmt.Sprintf("@n%d", i))
+		}
+		return x
+	}
+	out.Root = ren(c.Root)
+	for i, o := range order {
+		t, ok := byName[o]
+		if !ok {
+			continue
+		}
+		nt := TypeDecl{Name: fmt.Sprintf("@n%d", i), Enum: t.Enum, Regex: t.Regex}
+		if t.Body != nil {
+			nt.Body = ren(t.Body)
+		}
+		out.Types = append(out.Types, nt)
+	}
+	return out
+}
